@@ -21,6 +21,7 @@ from typing import Any
 VERIF = os.path.dirname(os.path.dirname(os.path.abspath(__file__)))
 from . import scratch_root as _scratch_root
 SCRATCH = _scratch_root()
+OUT = os.environ.get("SVSIM_OUT") or VERIF   # evidence/ and replays/ live here (mutant runs redirect it)
 DEFAULT_SEED = 20261004
 NWORKERS = int(os.environ.get("SVSIM_WORKERS", "16"))
 
@@ -258,7 +259,7 @@ def shrink(prop: str, scenario: dict, seed: int, target: tuple, budget_s: float 
 
 
 def write_replay(prop: str, seed: int, scenario: dict, violation: dict, tag: str = "") -> str:
-    d = os.path.join(VERIF, "replays", prop)
+    d = os.path.join(OUT, "replays", prop)
     os.makedirs(d, exist_ok=True)
     name = f"{seed:x}{tag}.json"
     path = os.path.join(d, name)
@@ -369,7 +370,7 @@ def run_check(prop: str, tier: str, master: int | None = None) -> int:
             write_replay(prop, seed, d["scenario"], v, tag="_nonrepro")
             exit_code = max(exit_code, 3)
             continue
-        small = shrink(prop, d["scenario"], seed, key, budget_s=mod.CONFIG.get("shrink_s", 40.0))
+        small = d["scenario"] if os.environ.get("SVSIM_NO_SHRINK") else shrink(prop, d["scenario"], seed, key, budget_s=mod.CONFIG.get("shrink_s", 40.0))
         res2 = replay_scenario(prop, small, seed)
         vv = next((x for x in res2.get("violations", []) if _vkey(x) == key), None)
         if vv is None:
@@ -453,8 +454,8 @@ def write_evidence(prop, tier, master, mod, agg: Aggregator, wall, known_seen, n
         "coverage": cov, "assumptions": mod.ASSUMPTIONS, "wall_s": round(wall, 2),
         "violations": len(new_violations),
     }
-    os.makedirs(os.path.join(VERIF, "evidence"), exist_ok=True)
-    with open(os.path.join(VERIF, "evidence", f"{prop}.json"), "w") as f:
+    os.makedirs(os.path.join(OUT, "evidence"), exist_ok=True)
+    with open(os.path.join(OUT, "evidence", f"{prop}.json"), "w") as f:
         json.dump(ev, f, indent=1, default=_json_default, sort_keys=True)
     # reach probes stuck at zero fail the thorough run as a harness error
     stuck = [p for p in getattr(mod, "REQUIRED_PROBES", []) if probes.get(p, 0) == 0]
